@@ -43,6 +43,7 @@ RULE = (
     "(label set, source colour, configuration) resp. (block, parameters, frame)"
 )
 ASSUMPTIONS = [
+    "multi-video label sets (each labelled frame is frame 0 of its own video) are part of the label-set alphabet: 4 two-video sets in quick, 25 in thorough",
     "litdata hand-over: in 'bin' mode the samples go through litdata's real BinaryWriter -> .bin chunks -> real "
     "litdata.StreamingDataset in ONE process; assumed: optimize()'s worker processes write what this writer writes. "
     "In 'stub' mode (fallback) litdata.StreamingDataset.__init__/__getitem__ are stubbed to hand the chunk function's "
@@ -227,7 +228,7 @@ def work_frameworks(part, shard):
     try:
         for gi, (labelset, src_rgb, cases) in enumerate(shard):
             try:
-                slp = Hh.write_labelset(root, labelset, src_rgb, f"g{gi}")
+                slp = Hh.write_labelset(root, labelset, src_rgb, f"g{gi}", multi_video=bool(cases and cases[0].get("multi_video")))
             except Exception as e:  # sleap-io could not write the synthetic file: harness problem, not a finding
                 raise RuntimeError(f"cannot write label set {labelset} rgb={src_rgb}: {e}")
             for case in cases:
@@ -313,6 +314,9 @@ def _pick_handover():
         shutil.rmtree(d, ignore_errors=True)
 
 
+QUICK_MV = ["A", "An0", "AB", "AP", "AE"]
+
+
 def run(ctx):
     core.setup_torch()
     try:
@@ -323,6 +327,12 @@ def run(ctx):
         return
     handover = _pick_handover()
     groups = groups_for(ctx.tier, handover)
+    # multi-video label sets: every labelled frame is frame 0 of its own video (frame indices collide across videos)
+    mv_sets = [("AB", "A"), ("A", "AB"), ("An0", "AP"), ("AB", "AB")] if ctx.tier == "quick" else [(a, b) for a in QUICK_MV for b in QUICK_MV]
+    for ls in mv_sets:
+        cs = [dict(c, multi_video=True) for c in configs_small(list(ls), False, True, handover)]
+        if cs:
+            groups.append((list(ls), False, cs))
     n_cases = sum(len(g[2]) for g in groups)
     ctx.bounds = {
         "tier": ctx.tier,
@@ -391,7 +401,7 @@ def replay(case):
             except Exception as e:
                 errs = [f"raised {type(e).__name__}: {e}"]
             return {"violates": bool(errs), "errors": errs[:10]}
-        slp = Hh.write_labelset(root, case["labelset"], case["src_rgb"], "replay")
+        slp = Hh.write_labelset(root, case["labelset"], case["src_rgb"], "replay", multi_video=bool(case.get("multi_video")))
         sc = tempfile.mkdtemp(dir=root)
         errs, info = Hh.run_framework_case(case, slp, sc)
         return {"violates": bool(errs), "errors": errs[:10], "n_samples": info["n_samples"], "img_max": info.get("img_max"), "map_max": info.get("map_max")}
